@@ -329,3 +329,25 @@ def c05(tier):
     out.append(T("union_reordered_cols", setop("union", ["DS_1", "DS_1r"]), 2,
                  structs=POOL + [structure("DS_1r", [("Id_1", "Integer", I, False), ("Id_2", "String", I, False), ("Me_2", "Number", M, True), ("Me_1", "Integer", M, True)])]))
     return out
+
+
+def all_engine_a(tier, pids=("c01", "c02", "c03", "c04", "c05")):
+    """templates of the behavioural properties, ids prefixed with their property (used by C10 / C33)"""
+    out = []
+    g = globals()
+    for pid in pids:
+        if pid not in g:
+            continue
+        for t in g[pid](tier):
+            t = dict(t)
+            t["id"] = pid.upper() + "." + t["id"]
+            out.append(t)
+    return out
+
+
+def c10(tier):
+    return all_engine_a(tier, ("c01", "c02", "c03", "c04", "c05", "c06", "c07", "c28"))
+
+
+def c33(tier):
+    return all_engine_a(tier, ("c01", "c02", "c03", "c04", "c05", "c06", "c07", "c28"))
